@@ -3,7 +3,11 @@ package checks
 import (
 	"encoding/json"
 	"fmt"
+	"hash/fnv"
 	"io"
+	"os"
+	"os/exec"
+	"path/filepath"
 	"regexp"
 	"sort"
 	"strings"
@@ -509,11 +513,74 @@ func checkC16Create(x *X, c c16Case) error {
 		}
 		return fmt.Errorf("%s", msg)
 	}
+	h := fnv.New32a()
+	h.Write(key)
+	if h.Sum32()%3 == 0 {
+		return c16CLISeveralApps(x, m, res.Create[0])
+	}
+	return nil
+}
+
+// c16CLISeveralApps: the command (`sysl generate-db-scripts -a Other,M`) asked for two applications in one
+// invocation must write, for M, byte for byte the script the library call gives for M alone, and for the
+// other application a script holding its one table and nothing of M (differential: one-application call
+// against the several-applications loop of cmd/sysl, which is package main and cannot be called in-process).
+func c16CLISeveralApps(x *X, m *c16Model, want string) error {
+	bin := os.Getenv("VERIF_SYSL")
+	if bin == "" {
+		return nil
+	}
+	dir, err := os.MkdirTemp("", "c16cli")
+	if err != nil {
+		x.Inconclusive("mkdtemp: " + err.Error())
+		return nil
+	}
+	defer os.RemoveAll(dir)
+	const other = "C16Other"
+	for n, txt := range c16Render(m).Files {
+		if n == "m.sysl" {
+			txt += "\n" + other + ":\n    !table Zed:\n        zid <: int [~pk]\n"
+		}
+		fn := filepath.Join(dir, filepath.FromSlash(n))
+		if err := os.MkdirAll(filepath.Dir(fn), 0o755); err == nil {
+			err = os.WriteFile(fn, []byte(txt), 0o644)
+		}
+		if err != nil {
+			x.Inconclusive("write: " + err.Error())
+			return nil
+		}
+	}
+	if err := os.MkdirAll(filepath.Join(dir, "out"), 0o755); err != nil {
+		x.Inconclusive("mkdir: " + err.Error())
+		return nil
+	}
+	cmd := exec.Command(bin, "generate-db-scripts", "-t", "t", "-o", "out", "-d", "postgres", "-a", other+","+c16App, "m.sysl")
+	cmd.Dir = dir
+	cmd.Env = append(os.Environ(), "SYSL_PLANTUML=http://localhost")
+	o, err := cmd.CombinedOutput()
+	if err != nil {
+		return fmt.Errorf("sysl generate-db-scripts -a %s,%s failed: %v: %s\n%s", other, c16App, err, lastN(string(o), 400), c16Texts(m))
+	}
+	x.Class("cli_two_applications")
+	got, err := os.ReadFile(filepath.Join(dir, "out", c16App+database.SQLExtension))
+	if err != nil {
+		return fmt.Errorf("sysl generate-db-scripts -a %s,%s wrote no script for %s: %v\n%s", other, c16App, c16App, err, c16Texts(m))
+	}
+	if string(got) != want {
+		return fmt.Errorf("the script the command writes for %s when asked for two applications differs from the script for %s alone\n%s---- command\n%s\n---- alone\n%s", c16App, c16App, c16Texts(m), got, want)
+	}
+	og, err := os.ReadFile(filepath.Join(dir, "out", other+database.SQLExtension))
+	if err != nil {
+		return fmt.Errorf("sysl generate-db-scripts -a %s,%s wrote no script for %s: %v", other, c16App, other, err)
+	}
+	if n := strings.Count(string(og), "CREATE TABLE"); n != 1 || !strings.Contains(string(og), "CREATE TABLE Zed(") {
+		return fmt.Errorf("script of %s (one table Zed) holds %d CREATE TABLE statements\n%s", other, n, og)
+	}
 	return nil
 }
 
 var c16Create = Define("C16", "create",
-	"1-6 tables (thorough 1-8) over 1-3 files (root imports the others; order of appearance independent of the reference order, so forward and cross-file references occur), acyclic FK graphs of depth <=4 (5) to key, non-key and FK columns, simple/composite/absent keys, ~autoinc, int/date/string/string(n). Oracle: the creation script, executed by a strict interpreter of the emitted DDL subset with PostgreSQL's rules, is accepted; each table is created exactly once with exactly the declared columns, key and FKs; sized strings are varchar (n); an FK column has the referenced column's type; a table is created after every table it references. Non-trivial: FK depth >=2 with >=2 tables at one depth.",
+	"1-6 tables (thorough 1-8) over 1-3 files (root imports the others; order of appearance independent of the reference order, so forward and cross-file references occur), acyclic FK graphs of depth <=4 (5) to key, non-key and FK columns, simple/composite/absent keys, ~autoinc, int/date/string/string(n). Oracle: the creation script, executed by a strict interpreter of the emitted DDL subset with PostgreSQL's rules, is accepted; each table is created exactly once with exactly the declared columns, key and FKs; sized strings are varchar (n); an FK column has the referenced column's type; a table is created after every table it references; for one case in three the command `sysl generate-db-scripts -a Other,M` (a second one-table application appended) must write for M exactly the script of M alone and for Other exactly its one table. Non-trivial: FK depth >=2 with >=2 tables at one depth.",
 	genC16Create, checkC16Create)
 
 // ---------- sub-property 2: identity delta, differential delta, chains ----------
